@@ -325,8 +325,62 @@ fn near_miss_sweep(ctx: &Ctx, rep: &mut Report) {
     }
 }
 
+/// Patterns around 2^16 bytes (lengths are `usize` everywhere; a 16-bit
+/// shortcut anywhere in ordering, hashing or verification shows here): a short
+/// pattern, a giant one that starts with it, and a second giant one whose
+/// length modulo 2^16 is small.
+fn giant_patterns(ctx: &Ctx, rep: &mut Report) {
+    let lens = [65_535usize, 65_536, 65_537, 65_536 + 37, 131_072 + 5];
+    let mut root = Rng::new(ctx.seed).fork(0x61A7 + ctx.shard as u64);
+    for (k, &glen) in lens.iter().enumerate() {
+        if !ctx.mine(k) && ctx.tier != Tier::Thorough {
+            continue;
+        }
+        let mut rng = root.fork(glen as u64);
+        let short: Vec<u8> = b"abc".iter().copied().chain((0..rng.range(0, 30)).map(|_| b'd')).collect();
+        let mut giant = short.clone();
+        while giant.len() < glen {
+            giant.push(b'x');
+        }
+        let mut other = b"qr".to_vec();
+        while other.len() < 65_536 + 2 {
+            other.push(b'y');
+        }
+        // supplied in both orders (leftmost-first cares), plus a few fillers
+        let mut pats = if rng.chance(1, 2) { vec![short.clone(), giant.clone()] } else { vec![giant.clone(), short.clone()] };
+        pats.push(other.clone());
+        pats.push(b"zq".to_vec());
+        let mut hay = vec![b'z'; 40 + rng.below(20)];
+        hay.extend_from_slice(&giant);
+        hay.extend_from_slice(b"zz");
+        hay.extend_from_slice(&short);
+        hay.extend_from_slice(b"zzzz");
+        hay.extend_from_slice(&other);
+        hay.extend_from_slice(&giant[..giant.len() - 1]);
+        hay.extend_from_slice(b"zzzzzzzzzzzzzzzzzzzzzzzzzzzzzzzzzzzz");
+        for &kind in &[Kind::LeftmostFirst, Kind::LeftmostLongest] {
+            for &v in &Variant::ALL {
+                let s = match guard(|| build(&pats, kind, v)) {
+                    Ok(Some(s)) => s,
+                    Ok(None) => continue,
+                    Err(p) => {
+                        rep.violation(&format!("build:{}:panic", v.name()), format!("packed build panicked: {}", p), case_json(&pats, kind, v, b"", (0, 0), "build"));
+                        continue;
+                    }
+                };
+                let imp = implementation(&s);
+                let l = hay.len();
+                check_one(rep, &pats, kind, v, &s, &imp, 2, &hay, (0, l));
+                check_one(rep, &pats, kind, v, &s, &imp, 2, &hay, (7, l - 3));
+                rep.tally("giant_pattern_cases");
+            }
+        }
+    }
+}
+
 pub fn run(ctx: &Ctx, rep: &mut Report) {
     near_miss_sweep(ctx, rep);
+    giant_patterns(ctx, rep);
     let n = ctx.tier.pick(4, 700, 100_000);
     for_each_case(ctx, rep, n, &mut |rep, pats, kind, v, s, imp, ml, hay, sp| {
         check_one(rep, pats, kind, v, s, imp, ml, hay, sp)
